@@ -38,7 +38,9 @@ pub fn check_answers(nq: usize, answers: &[Ans], sols: &[Vec<T>]) -> Option<Stri
         }
     }
     // soundness: every universe tuple that is an instance of an answer is a ground solution
-    let u = universe8();
+    // (the universe `solutions` enumerated for this program: the fixed eight values plus ground instances of the
+    // program's own terms)
+    let u = universe_cur();
     let total = u.len().pow(nq as u32);
     for code in 0..total {
         let mut k = code;
